@@ -25,6 +25,7 @@
  *   result tokens, in order of occurrence, `|` after every op:
  *     S<seq>=<id>  C<id>=<ret>   (worker ops)      s<seq>=<id>  c<id>=<ret>   (ops made by callbacks)
  *     F<seq>@<sec>.<nsec>  callback of the seq-th set ran at that virtual time
+ *     P mode: set tokens carry the expiry, S<seq>=<id>@<sec>.<nsec>
  *     H  held set parked    !...  harness-detected trouble (deadlock, timeout)
  * Each case runs in a forked child (fresh statics in timer.c; a hang costs one case, not the run).
  */
@@ -92,7 +93,10 @@ static void do_hop(const struct hop *h, int inner, int th) {
         if (id > max_id) max_id = id;
         if (th >= 0) th_last[th] = id;
         pthread_mutex_unlock(&em);
-        if (inner || par_mode) ev_add(inner ? 's' : 'S', seq, id, NULL);
+        if (par_mode) {                    /* P: the expiry goes into the token (absolute sets only) */
+            struct timespec ts; ts.tv_sec = h->kind == 'A' ? h->a : -1; ts.tv_nsec = h->kind == 'A' ? h->b : -1;
+            ev_add(inner ? 's' : 'S', seq, id, &ts);
+        } else if (inner) ev_add('s', seq, id, NULL);
         else { op_res.kind = 'S'; op_res.a = seq; op_res.b = id; }
     } else {
         long id = cancel_target(h, th); int r = timer_cancel(id);
@@ -204,6 +208,8 @@ static void flush_events(void) {
         struct ev *e = &evs[printed];
         if (e->kind == 'F') printf("F%ld@%ld.%ld ", e->a, (long) e->at.tv_sec, (long) e->at.tv_nsec);
         else if (e->kind == 'H') printf("H ");
+        else if (par_mode && (e->kind == 'S' || e->kind == 's'))
+            printf("%c%ld=%ld@%ld.%ld ", e->kind, e->a, e->b, (long) e->at.tv_sec, (long) e->at.tv_nsec);
         else printf("%c%ld=%ld ", e->kind, e->a, e->b);
     }
     pthread_mutex_unlock(&em);
@@ -221,7 +227,7 @@ static void run_case(char mode) {
             if (o->kind == 't') set_clock(&o->ts);
             else if (o->kind == 's' || o->kind == 'c') {
                 post(o->th, o);
-                if (wait_done(o->th, 8000) < 0) { flush_events(); printf("!op %d blocked (deadlock) ", i); bad = 1; break; }
+                if (wait_done(o->th, 3000) < 0) { flush_events(); printf("!op %d blocked (deadlock) ", i); bad = 1; break; }
             } else if (o->kind == 'h') {         /* set, caller parked inside pthread_cond_signal */
                 pthread_mutex_lock(&hm); hold_next_signal = 1; pthread_mutex_unlock(&hm);
                 post(o->th, o);
